@@ -2,7 +2,10 @@ module verifharness
 
 go 1.22.12
 
-require ariga.io/atlas v0.0.0
+require (
+	ariga.io/atlas v0.0.0
+	github.com/mattn/go-sqlite3 v1.14.24
+)
 
 require (
 	github.com/agext/levenshtein v1.2.1 // indirect
